@@ -108,6 +108,53 @@ func c02alphabet(ns string) []c02elem {
 	return a
 }
 
+// c02contentVariants: "whatever the element contains" for the elements that are not stanzas too. Every element of the
+// alphabet that is one of those, with - inside it - nothing but white space, an empty foreign child, foreign children
+// nested two and three levels deep, a stanza two levels down, and an element of its own name and namespace two levels
+// down. Each is read between two stanzas and at the end of a stream, over all the usual segmentations.
+func c02contentVariants(ns string) [][]c02elem {
+	var streams [][]c02elem
+	var first, last c02elem
+	for _, e := range c02alphabet(ns) {
+		switch e.name {
+		case "message/standard":
+			first = e
+		case "iq/result-empty":
+			last = e
+		}
+	}
+	for _, e := range c02alphabet(ns) {
+		if e.family != "plain" || e.kind == "" || e.kind == "stanza.Message" || e.kind == "stanza.Presence" || e.kind == "*stanza.IQ" {
+			continue
+		}
+		x := e.xml
+		name := x[1:strings.IndexAny(x, " />")]
+		open, clos := "", "</"+name+">"
+		if strings.HasSuffix(x, "/>") {
+			open = x[:len(x)-2] + ">"
+		} else {
+			open = x[:strings.LastIndex(x, "</")]
+		}
+		self := strings.Replace(x, " id='sm1'", " id='inner'", 1)
+		for vi, content := range []string{
+			" \n\t",
+			"<x xmlns='urn:unknown'/>",
+			"<ext xmlns='urn:unknown'><note/></ext>",
+			"<ext xmlns='urn:unknown'><note>text<deeper a='1'>more</deeper></note><other/></ext>",
+			"<wrap xmlns='urn:unknown'><message xmlns='" + ns + "' id='hidden' from='x@y'><body>hidden</body></message></wrap>",
+			"<wrap xmlns='urn:unknown'><inner>" + self + "</inner></wrap>",
+		} {
+			fam := "unknown-child"
+			if vi >= 4 {
+				fam = "descendant=same-name-same-ns"
+			}
+			v := c02elem{name: fmt.Sprintf("%s/content-%d", e.name, vi), xml: open + content + clos, kind: e.kind, id: e.id, typ: e.typ, from: e.from, family: fam}
+			streams = append(streams, []c02elem{first, v, last}, []c02elem{v})
+		}
+	}
+	return streams
+}
+
 type c02chunks struct {
 	parts []string
 	i     int
@@ -453,6 +500,13 @@ func TestVerifC02(t *testing.T) {
 	for _, ns := range []string{NSClient, NSComponent} {
 		ns := ns
 		scs = append(scs, hx.Scenario{Name: "stalled-reader/" + ns, Run: func(c *hx.Ctx) { c02stallScenario(c, ns) }})
+		scs = append(scs, hx.Scenario{Name: "content-variants/" + ns, Run: func(c *hx.Ctx) {
+			for _, st := range c02contentVariants(ns) {
+				c02checkStream(c, ns, st, true, false)
+				c02checkStream(c, ns, st, false, false)
+			}
+			c.Sample(map[string]string{"ns": ns, "xml": "<r xmlns='urn:xmpp:sm:3'><ext xmlns='urn:unknown'><note/></ext></r>"})
+		}})
 	}
 	scs = append(scs, c02deepScenarios()...)
 	scs = append(scs, c02treeScenarios()...)
